@@ -49,6 +49,18 @@ func (g *gate) yield(point string) {
 			runtime.Gosched()
 		}
 		g.stores.Add(1)
+	case "loaded":
+		// the slow reader: every now and then it sits on the snapshot it has just loaded for a while -- a plain sleep, nothing that
+		// would order it with the writer -- and reads on afterwards; memory reachable from a published snapshot is never written
+		// again, so whatever the writer did meanwhile must not touch what this reader goes on to read
+		if v, ok := g.readers.Load(goid()); ok {
+			if rd := v.(*reader); rd.slow {
+				rd.naps++
+				if rd.naps%8 == 0 {
+					time.Sleep(1500 * time.Microsecond)
+				}
+			}
+		}
 	case "load":
 		v, ok := g.readers.Load(goid())
 		if !ok {
@@ -79,6 +91,8 @@ type reader struct {
 	blocked   string
 	bad       string
 	gentle    bool
+	slow      bool // sits on loaded snapshots (see gate.yield "loaded")
+	naps      int
 }
 
 func sameInts(a, b []int) bool {
@@ -114,6 +128,7 @@ func (rd *reader) run(d *Driver, present []atomic.Bool, stop chan struct{}, wg *
 		rd.loads = 0
 		l := d.pc.List()
 		hi := d.PubIdx.Load()
+		rd.loads = 0
 		if n := d.pc.Len(); n < 0 || n > 2*len(d.cfg.Provs) { // Len is a read as well: it must not wait for a writer either
 			rd.bad = fmt.Sprintf("Len() = %d with %d providers", n, len(d.cfg.Provs))
 		}
@@ -248,7 +263,7 @@ func RunReaders(args []string) *rep.Report {
 		var wg sync.WaitGroup
 		rds := make([]*reader, *nReaders)
 		for i := range rds {
-			rds[i] = &reader{id: i + 1, gentle: hasTick}
+			rds[i] = &reader{id: i + 1, gentle: hasTick, slow: i == len(rds)-1 && len(rds) > 1}
 			wg.Add(1)
 			go rds[i].run(d, present, stop, &wg)
 		}
